@@ -126,7 +126,7 @@ func ruleR19_2(w *World, r *Report) {
 			}
 			return false
 		}
-		if s, ok := in.(*ssa.Store); ok && s.Parent() == fn && isOuter(s.Val) {
+		if s, ok := in.(*ssa.Store); ok && (s.Parent() == fn || flattenable[s.Parent()]) && isOuter(s.Val) {
 			if ia, ok := s.Addr.(*ssa.IndexAddr); ok && splitOfParam.MatchString(canonName(ia.X)) {
 				stored, st = true, s
 			}
